@@ -256,7 +256,7 @@ def rule_pairing(ctx, rep, rid='R1'):
     for x in cad.all_bodies:
         for bi, t in x.calls():
             r = t.get('resolved') or ''
-            if r.startswith(SS + '::incr_') and x.path not in region:
+            if r.startswith(SS + '::incr_') and x.path not in region and not any(x.path.startswith(p_ + '::{closure') for p_ in region):
                 bad.append((x, bi))
     rep.ob(rid, 'counters-incremented-only-by-update', not bad, bad[0][0].where(bad[0][1]) if bad else '', 'incr_* are called from update only' if not bad else 'counters also bumped from %s' % [x.short() for x, _ in bad])
 
@@ -456,6 +456,11 @@ def rule_shared_counters(ctx, rep, rid='R3'):
     cad = ctx.cad
     # From<&SocketStats> for SinkStats maps each field to the same-named field
     fr = [b for b in cad.all_bodies if b.impl_trait == 'core::convert::From' and (b.impl_self or '') == 'cadence::sinks::core::SinkStats' and b.name == 'from']
+    if len(fr) > 1:
+        # a by-value `From<SocketStats>` next to the by-reference one: the by-reference conversion is the snapshot, the
+        # other one must come out the same (stat_roles requires all snapshot functions to agree)
+        byref = [x for x in fr if x.locals[1].startswith('&')]
+        fr = byref if len(byref) == 1 else fr
     b = one(rep, rid, 'From<&SocketStats> for SinkStats', fr)
     if b is not None:
         rep.analysed(b)
@@ -468,6 +473,16 @@ def rule_shared_counters(ctx, rep, rid='R3'):
     cl = [i for i in cad.impls_of('core::clone::Clone') if i.get('self_adt') == SS]
     fields = adt_fields(cad, SS) or []
     okc = len(cl) == 1 and cl[0]['derived'] and all(f['ty'].startswith('alloc::sync::Arc<') for f in fields) and len(fields) >= 1
+    if not okc and len(cl) == 1 and not cl[0]['derived'] and all(f['ty'].startswith('alloc::sync::Arc<') for f in fields) and fields:
+        # a hand-written Clone: every field of the clone is Arc::clone of the same field of the original
+        cb_ = [cad.bodies.get(it['path']) for it in cl[0]['items'] if it['name'] == 'clone']
+        if len(cb_) == 1 and cb_[0] is not None:
+            rts_ = ret_terms(Terms(inl(cad, cb_[0])), [0])
+            if len(rts_) == 1 and list(rts_)[0][0] == 'adt' and list(rts_)[0][1] == SS:
+                fs_ = dict(list(rts_)[0][3])
+                okc = set(fs_) == set(f['name'] for f in fields) and all(
+                    term_callee_is(v_, '<alloc::sync::Arc as core::clone::Clone>::clone') and deep_peel(v_[2][0]) == ('field', ('param', 1), n_)
+                    for n_, v_ in fs_.items())
     rep.ob(rid, 'clones-share-counters', okc, '', 'every field of SocketStats is an Arc and Clone is derived: a clone counts into the same cells')
     # buffered constructors: adapter gets stats.clone() of the value kept in the sink
     n = 0
